@@ -465,8 +465,8 @@ func cmdRun(args []string) int {
 				fmt.Fprintln(os.Stderr, "INCONCLUSIVE", r.job.h.Fn, r.job.label, m)
 			}
 		}
-		if r.out.Stats.UnknownObl > 0 {
-			inconcl[r.job.h.Fn+": solver returned unknown on a property obligation"] += r.out.Stats.UnknownObl
+		for id, n := range r.out.Stats.UnknownIDs {
+			inconcl[r.job.h.Fn+": solver returned unknown on obligation "+id] += n
 		}
 		seen := map[string]bool{}
 		for _, v := range r.out.Violations {
